@@ -32,12 +32,14 @@ def failing_keys(prop: str, overlay: Optional[Dict[str, str]]) -> Tuple[set, Opt
     try:
         prog = Program(root=SRC, overlay=overlay)
         results = mod.run(prog, "quick")
-        for r in results:
-            if len(r.obligations) < r.floor and not r.failed:
-                return set(), f"floor {r.rule}"
+        fails = {o.key for r in results for o in r.obligations if not o.ok}
+        if not fails:
+            for r in results:
+                if len(r.obligations) < r.floor:
+                    return set(), f"floor {r.rule}"
     except AnalysisError as e:
         return set(), str(e)
-    return {o.key for r in results for o in r.obligations if not o.ok}, None
+    return fails, None
 
 
 def run_case(case) -> Dict:
